@@ -130,9 +130,30 @@ def ev_keytag(j):
              "out2": outcome(tag(dns.rdatatype.CDNSKEY), int)}]
 
 
+def text_of(labels):
+    return ".".join("".join(chr(c) for c in x) for x in labels)
+
+
+def ds_owner_arg(j):
+    """the owner in the argument form of the job: (argument, origin).  Forms: name = absolute Name; text = absolute
+    text; relname / reltext = the first `cut` labels as a relative Name / relative text ('@' when cut = 0) plus
+    origin= the remaining labels."""
+    form = j.get("form", "name")
+    owner = j["owner"]
+    if form == "name":
+        return nm(owner), None
+    if form == "text":
+        return (text_of(owner) + ".") if owner else ".", None
+    cut = j["cut"]
+    rel, org = owner[:cut], nm(owner[cut:])
+    if form == "relname":
+        return dns.name.Name([bytes(x) for x in rel]), org
+    return (text_of(rel) if rel else "@"), org
+
+
 def ev_ds(j):
     w = bytes(j["key"])
-    owner = nm(j["owner"])
+    owner, org = ds_owner_arg(j)
     dt = j["dt"]
     key = dns.rdata.from_wire(1, dns.rdatatype.DNSKEY, w, 0, len(w))
     ckey = dns.rdata.from_wire(1, dns.rdatatype.CDNSKEY, w, 0, len(w))
@@ -140,17 +161,21 @@ def ev_ds(j):
     dig = HASHES[dt](pre).digest()
     algname = {1: "SHA1", 2: "sha256", 4: "SHA384"}[dt]
 
-    def dsset():
+    def keyset():
         rds = dns.rdataset.Rdataset(1, dns.rdatatype.DNSKEY)
         rds.add(key, 300)
-        out = dns.dnssec.make_ds_rdataset((owner, rds), {algname})
-        return sorted(list(r.to_wire()) for r in out)
+        return rds
+
+    def wires(rds):
+        return sorted(list(r.to_wire()) for r in rds)
 
     return [{"op": "ds", "owner": j["owner"], "key": j["key"], "dt": dt, "pre": j["pre"], "dig": list(dig),
-             "ds": outcome(lambda: dns.dnssec.make_ds(owner, key, dt, policy=dns.dnssec.allow_all_policy).to_wire()),
-             "dsc": outcome(lambda: dns.dnssec.make_ds(owner, ckey, algname, validating=True).to_wire()),
-             "cds": outcome(lambda: dns.dnssec.make_cds(owner, key, dt).to_wire()),
-             "dsset": outcome(dsset)}]
+             "form": j.get("form", "name"), "cut": j.get("cut", 0),
+             "ds": outcome(lambda: dns.dnssec.make_ds(owner, key, dt, org, policy=dns.dnssec.allow_all_policy).to_wire()),
+             "dsc": outcome(lambda: dns.dnssec.make_ds(owner, ckey, algname, origin=org, validating=True).to_wire()),
+             "cds": outcome(lambda: dns.dnssec.make_cds(owner, key, dt, org).to_wire()),
+             "dsset": outcome(lambda: wires(dns.dnssec.make_ds_rdataset((owner, keyset()), {algname}, org))),
+             "cdsset": outcome(lambda: wires(dns.dnssec.dnskey_rdataset_to_cds_rdataset(owner, keyset(), algname, org)))}]
 
 
 def ev_nsec3(j):
